@@ -60,6 +60,15 @@ if phase1:
 rc, out = sh("git -C /repo diff --quiet")
 assert rc == 0, "/repo not clean"
 rc, out = sh(f"git -C /repo apply {src}/patch.diff")
+if rc != 0:
+    # the tree has moved on since the change was written (later fix commits): try a three-way merge
+    rc, out = sh(f"git -C /repo apply --3way {src}/patch.diff")
+    sh("git -C /repo reset -q")
+    if rc != 0 or "<<<<<<<" in sh("git -C /repo diff")[1]:
+        sh("git -C /repo checkout -- .")
+        print(json.dumps({"property": prop, "variant": var, "error": "patch does not apply to the current /repo: " + out[-600:]}))
+        sys.exit(3)
+    meta["applied_with_3way_merge"] = True
 verdicts = {}
 try:
     for c in checks:
